@@ -366,7 +366,10 @@ make_ops(void)
         push_op((struct op){ O_SET, r, wt, ref_bits(spec.r[r].type, spec.r[r].def), 0, 0, 0 });
         uint64_t M[4];
         const int nm = masks(&spec.r[r], M);
-        for (int k = O_BITSET; k <= O_BITCLR; ++k) {
+        /* the statement's bit-operation clause is about unsigned registers and
+         * min/max/range/callback constraints; what a bit operation that changes
+         * nothing does on an always-fail register is not specified */
+        for (int k = O_BITSET; k <= O_BITCLR && spec.r[r].ckind != K_FAIL; ++k) {
             for (int i = 0; i < nm; ++i)
                 push_op((struct op){ (enum opk)k, r, spec.r[r].type, M[i], 0, 0, 0 });
             push_op((struct op){ (enum opk)k, r, wt, 1, 0, 0, 0 });
